@@ -44,3 +44,20 @@ func (fg *FnGen) havocCall(st *State, reach *Term) *State {
 	}
 	return st2
 }
+
+// freshSubObjects: the embedded (by-value) struct fields of a freshly allocated object are themselves fresh objects.
+func (fg *FnGen) freshSubObjects(ref *Term, ty types.Type, depth int) {
+	stt, ok := ty.Underlying().(*types.Struct)
+	if !ok || depth > 4 || fg.noDefs {
+		return
+	}
+	for i := 0; i < stt.NumFields(); i++ {
+		ft := stt.Field(i).Type()
+		if _, isStruct := ft.Underlying().(*types.Struct); isStruct {
+			name, _ := fg.fieldVar(ty, stt, i)
+			sub := App("fld:"+name, SInt, ref)
+			fg.assume(Gt(sub, fg.refLimit()))
+			fg.freshSubObjects(sub, ft, depth+1)
+		}
+	}
+}
